@@ -142,7 +142,12 @@ def R2_nearest_admissible(ctx):
     for c in gets:
         ct = tm.call_term(c.term, c.bb)
         guards = [x for x in b.calls() if x.callee and re.search(r"Option::<T>::ok_or(_else)?$", x.callee) and contains(tm.operand(x.args[0], x.bb), lambda s: s == ct)]
-        ctx.check(bool(guards) and all(try_propagation(b, g, tm)["kind"] == "propagated" for g in guards), "road-class-miss=>Err", "a missing road-class row is not a propagated Err", c.where())
+        okg = bool(guards) and all(try_propagation(b, g, tm)["kind"] == "propagated" for g in guards)
+        if not okg and not guards:
+            # `match lookup.get(i) { Some(c) => .., None => Err(..) }` (in a loop: every path of the turn on which the lookup
+            # is None ends in an Err return)
+            okg = core_none_is_err(b, c, tm)
+        ctx.check(okg, "road-class-miss=>Err", "a missing road-class row is not a propagated Err", c.where())
     # tolerance failure => Ok(None) (search ends), exhaustion => Ok(None)
     wts = [c for c in b.calls() if c.callee == E + "edge_rtree_input_plugin::within_tolerance"]
     okt = len(wts) == 1
@@ -291,6 +296,11 @@ def R3_no_partial_write(ctx):
         if isinstance(c, VirtualCallSite):
             okp = okp and try_propagation(eb, c.via, etm)["kind"] == "propagated"
         ctx.check(okp, "edge:search-error", "Err of the search is not propagated", c.where())
+
+
+def core_none_is_err(b, c, tm):
+    import core as _core
+    return _core.none_is_err(b, c, tm)
 
 
 def none_is_err(body, call):
